@@ -95,6 +95,20 @@ def gen_cases(rng, tier):
             if "s" in pair[0] and opx == "ge":
                 opx = "add"
             cases.append({"kind": "bin", "op": opx, "l": pair[0], "r": pair[1]})
+        if i % 10 == 4:
+            # identity / absorbing / boundary scalars (0, 1, -1, 2) of every exact type against operands with
+            # non-integral outcomes: h * 0 collapses every face onto one, h // 1 floors, h ** 0, 0 - h, ...
+            opi = rng.choice(["mul", "mul", "floordiv", "floordiv", "truediv", "add", "sub", "pow", "mod"])
+            v = rng.choice([0, 0, 1, 1, -1, 2])
+            styp = rng.choice(["int", "bool", "Fraction"]) if v in (0, 1) else rng.choice(["int", "Fraction"])
+            sc = {"s": gens.q(v), "styp": styp}
+            big = rng.random() < 0.3
+            other = rng.choice([{"h": gens.hist(rng, max_faces=4, frac_p=0.5, style=rng.choice(["small", "pos", "big"] if big else ["small", "pos"]))},
+                                {"h": gens.hist(rng, max_faces=4, frac_p=0.5)}, gen_operand(rng, ["p"])])
+            if opi == "pow":
+                other = {"h": [[o, cnt] for o, cnt in other.get("h", [[gens.q(2), 1]]) if abs(Fraction(*o)) <= 4]}
+            pair = [other, sc] if rng.random() < 0.6 else [sc, other]
+            cases.append({"kind": "bin", "op": opi, "l": pair[0], "r": pair[1]})
         if i % 20 == 7:
             # the SAME left object combined in turn with right operands that compare equal (scaled,
             # zero-padded, pooled) and with the base again: results must not depend on earlier calls
@@ -117,7 +131,9 @@ def _py_operand(x):
     if "h" in x:
         return H(gens.py_hist_dict(x["h"]))
     if "s" in x:
-        return gens.py_outcome(x["s"])
+        v = gens.py_outcome(x["s"])
+        styp = x.get("styp")
+        return bool(v) if styp == "bool" else Fraction(v) if styp == "Fraction" else v
     return pools.py_pool(x["p"])
 
 
